@@ -27,7 +27,7 @@ func init() {
 		Exhaustive:  true,
 		Shards:      shards(8, 16),
 		Run:         runC19,
-		MinEvals:    floor(20000, 300000),
+		MinEvals:    floor(20000, 250000),
 		MinDistinct: floor(15000, 200000),
 		RequiredCells: func(string) []string {
 			return []string{"roundtrip/constructed", "roundtrip/dagcbor", "roundtrip/dagjson", "roundtrip/delegation", "roundtrip/invocation", "roundtrip/string", "roundtrip/bytes",
@@ -209,7 +209,8 @@ func runC19(w *mon.W) {
 					}
 
 					// ---- fault enumeration over the stored ciphertext (once per length/kind, first repetition)
-					if rep > 0 || typ != "delegation" {
+					// quick: once per length/kind; thorough: on every generated ciphertext
+					if !w.Thorough() && (rep > 0 || typ != "delegation") {
 						continue
 					}
 					tryTampered := func(kind string, pos int, t []byte) {
@@ -220,7 +221,7 @@ func runC19(w *mon.W) {
 						got, err := m.GetEncryptedBytes("secret", key)
 						w.Eval(1)
 						if ln > 0 {
-							w.Distinct(ln, isText, kind, pos)
+							w.Distinct(ln, isText, kind, pos, rep, typ)
 						}
 						if err == nil {
 							w.Violate("tamper-accepted/"+kind, fmt.Sprintf("%s: a modified ciphertext (%s at %d) decrypts without error to %d bytes", desc, kind, pos, len(got)),
